@@ -468,3 +468,95 @@ func TestC17RSDegrees(t *testing.T) {
 		t.Fatalf("%s", ct.first)
 	}
 }
+
+// TestC17RSConcurrent: "regardless of which degrees were requested before" includes requests that arrived
+// concurrently: on a fresh encoder several goroutines request different degrees at once (each result checked
+// against the reference encoder), then every degree is verified sequentially.
+func TestC17RSConcurrent(t *testing.T) {
+	st := NewStats("C17", "rs-concurrent")
+	defer st.Flush()
+	rounds := 6
+	if thorough() {
+		rounds = 60
+	}
+	seed := envInt("VERIF_RAPID_SEED", 1)
+	type result struct{ msg string }
+	for round := 0; round < rounds; round++ {
+		for fi, sp := range gfSpecs {
+			base := (round + fi) % 2
+			rf := ref.GF2{Poly: sp.PP, Size: sp.Size}
+			maxN := min(sp.Size-1, 400)
+			enc := utils.NewReedSolomonEncoder(utils.NewGaloisField(sp.PP, sp.Size, base))
+			g := 4 + (round+seed)%5
+			start := make(chan struct{})
+			res := make(chan result, g)
+			for w := 0; w < g; w++ {
+				go func(w int) {
+					defer func() {
+						if r := recover(); r != nil {
+							res <- result{fmt.Sprintf("panic in concurrent Encode: %v", r)}
+						}
+					}()
+					<-start
+					for k := 0; k < 6; k++ {
+						x := uint64(seed)*0x9E3779B97F4A7C15 + uint64(round*1000+w*37+k)*0xBF58476D1CE4E5B9
+						x ^= x >> 29
+						n := 1 + int(x%uint64(maxN))
+						if k == 0 {
+							n = 1 + (w*maxN/g+round)%maxN // spread: low, middle and high first requests
+						}
+						data := []int{1, int(x>>8) % sp.Size, 0, int(x>>20) % sp.Size}
+						got := enc.Encode(append([]int(nil), data...), n)
+						want := rf.RSRemainder(data, rf.Generator(n, base))
+						if len(got) != n {
+							res <- result{fmt.Sprintf("concurrent Encode(n=%d) returned %d symbols", n, len(got))}
+							return
+						}
+						for j := range want {
+							if got[j] != want[j] {
+								res <- result{fmt.Sprintf("concurrent Encode(n=%d): check symbol %d is %d, reference %d", n, j, got[j], want[j])}
+								return
+							}
+						}
+					}
+					res <- result{}
+				}(w)
+			}
+			close(start)
+			for w := 0; w < g; w++ {
+				if r := <-res; r.msg != "" {
+					failf(t, "C17", "rs-concurrent", map[string]any{"field": sp.Name, "base": base, "round": round, "goroutines": g}, "%s", r.msg)
+				}
+			}
+			// sequential verification of every degree on the same encoder
+			seq := RSCase{Field: fi, Base: base}
+			step := 1
+			if !thorough() {
+				step = 3
+			}
+			for n := 1 + round%step; n <= maxN; n += step {
+				seq.Calls = append(seq.Calls, RSCall{Data: []int{1, n % sp.Size, 0, 5 % sp.Size}, N: n})
+			}
+			for i, call := range seq.Calls {
+				var got []int
+				if pv := try(func() { got = enc.Encode(append([]int(nil), call.Data...), call.N) }); pv != nil {
+					failf(t, "C17", "rs-concurrent", map[string]any{"field": sp.Name, "base": base, "round": round, "goroutines": g}, "after %d goroutines requested degrees concurrently, sequential Encode(n=%d): %v", g, call.N, pv)
+				}
+				want := rf.RSRemainder(call.Data, rf.Generator(call.N, base))
+				for j := range want {
+					if len(got) != call.N || got[j] != want[j] {
+						failf(t, "C17", "rs-concurrent", map[string]any{"field": sp.Name, "base": base, "round": round, "goroutines": g}, "after %d goroutines requested degrees concurrently on a fresh encoder, sequential call %d Encode(n=%d) returns wrong check symbols (symbol %d)", g, i, call.N, j)
+					}
+				}
+			}
+			st.EvalN(int64(len(seq.Calls) + g*6))
+			st.NonTrivialN(int64(len(seq.Calls)))
+			st.Class("concurrent-then-sequential " + sp.Name)
+		}
+	}
+	st.Sample("rs-concurrent", map[string]any{"field": "GF(4096)/0x1069", "goroutines": 5, "then": "every degree 1..400 sequentially"})
+}
+
+func init() {
+	register("rs-concurrent", func(t TB, _ map[string]any) { t.Logf("schedule-dependent case: re-run the part TestC17RSConcurrent") })
+}
